@@ -210,7 +210,8 @@ DERIVED_TOL = 64 * EPS
 # --- physical constants (C15): name -> (SI magnitude, RDim, class) -----------------------------------
 CONSTANTS = {
     "me": (9.1093837015e-31, d.mass, "codata"),
-    "Na": (6.02214076e23, d.ONE, "codata"),
+    # unyt defines mol as the pure number N_A, so Avogadro's constant (per mol) has SI magnitude 1
+    "Na": (1.0, d.ONE, "codata"),
     "mp": (1.67262192369e-27, d.mass, "codata"),
     "mh": (1.007947 * 1.66053906660e-27, d.mass, "codata"),
     "c": (299792458.0, d.velocity, "exact"),
